@@ -85,7 +85,18 @@ def wf_clauses(w, T, R, n, start):
                    z3.Or(nxt == b + T.tl(b),
                          z3.And(sel(recOf, nxt), sel(txnOf, nxt) == b))))
     tail = z3.Or(n - P < 23, T.status(P) == ord('c'), P + T.tl(P) + 8 > n)
-    return [
+    tiling = [
+        # the records and transactions TILE the committed region: nothing overlaps (format description)
+        ('wf.records-do-not-overlap', All(['rpos', 'rpos'], lambda p, q: z3.Implies(
+            z3.And(sel(recOf, p), sel(recOf, q), p < q), p + rlen(p) <= q))),
+        ('wf.records-lie-inside-transactions', All(['rpos', 'bpos'], lambda p, b: z3.Implies(
+            z3.And(sel(recOf, p), sel(isB, b), b >= start, b <= P),
+            z3.And(z3.Implies(p < b, p + rlen(p) + 8 <= b),
+                   z3.Implies(z3.And(b <= p, b < P), b + T.hdrlen(b) <= p))))),
+        ('wf.transactions-do-not-overlap', All(['bpos', 'bpos'], lambda b, b2: z3.Implies(
+            z3.And(sel(isB, b), sel(isB, b2), b >= start, b < b2, b2 <= P), b + T.tl(b) + 8 <= b2))),
+    ] if INDEX_PROOF else []
+    return tiling + [
         ('wf.start', z3.And(sel(isB, start), start >= 4, start <= P, P <= n, sel(isB, P))),
         ('wf.boundaries', All(['bpos'], boundary)),
         ('wf.records', All(['rpos'], record)),
@@ -94,12 +105,13 @@ def wf_clauses(w, T, R, n, start):
     ]
 
 
-def index_upto(w, A, start, i0dom, i0val, dom, val, x):
+def index_upto(w, A, start, i0dom, i0val, dom, val, x, R=None):
     """(dom,val) maps every oid to its last record in [start, x) (records of committed, not 'u'
     transactions), or else to its entry in the initial index"""
     sel = z3.Select
     recOf = w.recOf
-    oid_of = lambda p: be(A, p, 8)
+    # (the ghost field function, ground-linked wherever a header is read, instead of the 8-term sum)
+    oid_of = (lambda p: R.oid(p)) if R is not None else (lambda p: be(A, p, 8))
     return [
         ('index.entries-are-records', All(['oid'], lambda o: z3.Implies(
             sel(dom, o),
@@ -192,7 +204,7 @@ class ReadIndex(Spec):
             fo = c.obj(g['file']).f
             out = [('returns-committed-end', field_eq(c, pos, w.P))]
             if INDEX_PROOF:
-                out += index_upto(w, A, st, g['i0dom'], g['i0val'], ix['dom'], ix['val'], w.P)
+                out += index_upto(w, A, st, g['i0dom'], g['i0val'], ix['dom'], ix['val'], w.P, R=g['R'])
             out.append(('tindex-empty', All(['oid'], lambda o: z3.Not(sel(ti['dom'], o)))))
             last = z3.If(w.P == st, g['ltid0'], g['T'].tid(sel(w.prevB, w.P)))
             out.append(('last-tid-is-last-committed-transaction', b8_eq_num(c, ltid, last)))
@@ -239,7 +251,7 @@ class ReadIndex(Spec):
                                                T.tid(sel(w.prevB, pos))))),
         ]
         if INDEX_PROOF:
-            out = out + index_upto(w, A, st, g['i0dom'], g['i0val'], ix['dom'], ix['val'], pos)
+            out = out + index_upto(w, A, st, g['i0dom'], g['i0val'], ix['dom'], ix['val'], pos, R=g['R'])
         return out
 
     def _inner(self, c, fr):
@@ -259,7 +271,9 @@ class ReadIndex(Spec):
         D = lambda o: z3.Or(sel(ti['dom'], o), sel(ix['dom'], o))
         W = lambda o: z3.If(sel(ti['dom'], o), sel(ti['val'], o), sel(ix['val'], o))
         recOf = w.recOf
-        oid_of = lambda p: be(A, p, 8)
+        oid_of = lambda p: g['R'].oid(p)
+        if INDEX_PROOF:
+            g['R'].link(c, pos)
         i0dom, i0val = g['i0dom'], g['i0val']
         out = [
             ('in-transaction', z3.And(sel(w.isB, tpos), tpos < w.P, tpos >= st,
